@@ -19,11 +19,12 @@ struct ReadScript {
     bool read_error_persistent = true; // every later read fails as well (false: one failed call, then the data continues)
     size_t chunk = 0;          // max bytes per underlying read call (0 = unlimited)
     bool unbuffered = false;
+    int close_errno = 0;       // fclose of the stream reports this error (the descriptor is gone all the same, as with close(2) on NFS)
 };
 // path that the wrapped fopen recognises
 static const char *const kPath = "/dsim/file";
 void set_read_script(const ReadScript &s);
-struct ReadStats { int opens = 0, closes = 0, reads = 0; size_t bytes = 0; int fstats = 0; bool error_fired = false; };
+struct ReadStats { int opens = 0, closes = 0, reads = 0; size_t bytes = 0; int fstats = 0; bool error_fired = false; bool close_error_fired = false; };
 ReadStats read_stats();
 
 // scripted write stream (C14): records everything written; may fail
